@@ -530,8 +530,36 @@ CLAIMED = {
              "(exact rational witnesses that the pinned residuals did NOT have the property); power_monotone, power_normalised, "
              "power_le_bound. Tie: translator + counter/done traces of 9 classes and App.run under random done()/update() "
              "interleavings up to max_iter+2, PDHG / GradientMethod stepped against the Lean transcription."
-             " Deepened: the PDHG residual formulas and Newton's residual are translator-generated (Gen/C15Resid.lean), C15's PDHG step is C13's generated step; early_stop_fixed_pdhg_general (any gamma_primal, gamma_dual, theta, scalar or array steps: resid <= 0 => saddle point => the next update with the rescaled steps changes neither x nor u), early_stop_fixed_newton_ls (backtracking line search), pdRescale_steps_pos.",
-        note='Trusted: Lean kernel; translator gen_c15; SDMM has no run-time traces; the statement order of NewtonsMethod._update and of GradientMethod is transcribed by hand in C15 (tied by the step stream); for PDHG with gamma > 0 the extra-update comparison uses 1e-10 relative (a float fixed point of the old steps is reproduced by the rescaled steps to 1 ulp; in exact arithmetic it is early_stop_fixed_pdhg_general); power_le_bound takes an operator bound L (lambda_max = ||A|| is checked numerically); the extra-update comparison for GerchbergSaxton uses 1e-10 (its least-squares re-solve reproduces the fixed point to 1 ulp only).',
+             " Deepened: the PDHG residual formulas and Newton's residual are translator-generated (Gen/C15Resid.lean), C15's PDHG step is C13's generated step; early_stop_fixed_pdhg_general (any gamma_primal, gamma_dual, theta, scalar or array steps: resid <= 0 => saddle point => the next update with the rescaled steps changes neither x nor u), early_stop_fixed_newton_ls (backtracking line search), pdRescale_steps_pos."
+             " Deepened (2): Gen/C15Mach.lean (gen_c15m.py, a statement-by-statement symbolic executor, fail-closed) now holds the "
+             "GENERATED _update of PowerMethod, GradientMethod (all four accelerate/proxg paths), AltMin, AugmentedLagrangianMethod "
+             "(g/h None or not), ADMM, NewtonsMethod (raise for lamda2 < 0, the backtracking while loop as whileFuel) and "
+             "GerchbergSaxton (inner solver = C12's generated ConjugateGradient, its while loop as whileFuel), the generated "
+             "Alg.update (algUpdate / algUpdateR), the generated stopping block of SDMM._update (sdmmStop) and the generated App.run "
+             "loop (appRunPass: _pre_update, alg.update, _post_update, _summarize in source order; appRunTest; appRun). Every class "
+             "is now translator-generated: ConjugateGradient by Gen.C12, PrimalDualHybridGradient by Gen.C13 + Gen.C15Resid, every "
+             "_done / counter init by Gen.AlgDone, the rest by Gen.C15Mach. Props/C15Mach.lean: runLoop_exact, run_count_general, "
+             "run_count_stop (the loop performs EXACTLY min(max_iter, first k with the early-stop test true) updates and returns "
+             "that iterate), run_count_nostop (exactly max(max_iter,0)), for every integer max_iter incl. <= 0; whileFuel_eq_runLoop, "
+             "app_pass_iter, app_run_exact, app_run_bound (the generated App.run terminates after exactly that many passes = "
+             "alg.update() calls, for hooks that leave the counter alone; app_run_one_update_per_pass); runLoopR_bound (updates that "
+             "may raise); upd_iter_<Class>, algUpdate_iter, update_iter_all (each generated _update leaves iter alone, generated "
+             "Alg.update adds exactly one); done_decomp (each generated _done is iter >= max_iter OR its early-stop test: which "
+             "quantity is compared with which threshold), no_early_stop (Alg, PowerMethod, AltMin, AugmentedLagrangianMethod, ADMM "
+             "have no early-stop test); run_exact_PowerMethod / _AltMin / _AugmentedLagrangianMethod / _ADMM / _GradientMethod / "
+             "_ConjugateGradient and run_bound_NewtonsMethod / _GerchbergSaxton about generated _update + Alg.update + _done + "
+             "initial counter. Early stop on the generated bodies: early_stop_fixed_gm_gen, early_stop_fixed_gm_accel_gen, "
+             "gm_tol_bound (resid <= tol => ||T(x) - x|| <= alpha tol), early_stop_fixed_newton_gen (residual = sqrt(lamda2) <= 0 => "
+             "gradient zero at the iterate, x unchanged whatever alpha, the next update succeeds and leaves x unchanged; both "
+             "beta branches, the raise included), newton_tol_bound (m||g||^2 <= <H^-1 g, g> => ||grad f(x)||^2 <= tol^2/m), "
+             "pdhg_tol_bound (each step-weighted move <= tol^2), early_stop_fixed_gs (residual = sum||Ax|-y| <= 0 => |Ax| = y, "
+             "y_hat = Ax, inner CG done before its first update, x unchanged - for lamb x = 0; for lamb x != 0 the test certifies "
+             "data consistency only), sdmm_stop_iff_partial (stop <=> every block has ||r|| <= eps_pri and ||s|| <= eps_dual). Tie "
+             "added: the real ADMM / AugmentedLagrangianMethod / AltMin run on numpy object arrays of Fractions (exact rationals in "
+             "the real code) and compared for equality with the generated machines after every update; the real SDMM stepped with "
+             "its linalg.norm calls recorded and the generated stopping block evaluated on them; SDMM in the counter/done traces, "
+             "App.run stream and oracle; GradientMethod / NewtonsMethod stepped against the generated machines (gmG / newtonG).",
+        note='KNOWN FINDING C15:SDMM:early-stop (found by this deepening, recorded in known_findings.json, not repaired): SDMM._update binds z_old = self.z (an alias), so its dual residual is always 0 and SDMM is done() after ONE update at a non-fixed point whenever the constraints are inactive, for every eps_pri/eps_dual >= 0. Trusted: Lean kernel; translators gen_c15 / gen_c15m (object model for arrays; callbacks of AltMin/ADMM/AugmentedLagrangianMethod are transformers of the data record that leave iter alone; inner CG of GerchbergSaxton with value semantics for x); of SDMM._update only the stopping block is generated (prox_muf, the aliasing v = self.x are not modelled); GerchbergSaxton and PowerMethod have no exact step stream (phase / norm are irrational: traces + theorems only); the older hand transcriptions gmUpdate / newtonUpdateLS / pdhgUpdate remain for the witnesses and the older theorems (tied by the step stream), the new theorems are about the generated bodies; for PDHG with gamma > 0 the extra-update comparison uses 1e-10 relative (a float fixed point of the old steps is reproduced by the rescaled steps to 1 ulp; in exact arithmetic it is early_stop_fixed_pdhg_general); power_le_bound takes an operator bound L (lambda_max = ||A|| is checked numerically); the extra-update comparison for GerchbergSaxton uses 1e-10 (its least-squares re-solve reproduces the fixed point to 1 ulp only).',
         technique="Lean 4 proof (loop bound over translator-generated done/counter logic, fixed-point theorems) + trace correspondence",
         design="DESIGN.md §3 C15, §9"),
     "C18": dict(
